@@ -3,6 +3,8 @@ package main
 import (
 	"fmt"
 	"math/rand"
+	"strings"
+	"time"
 
 	"verif/harness/internal/smf"
 
@@ -94,8 +96,14 @@ func init() {
 			for i := 0; i < nc; i++ {
 				o := GenOpt{MaxLen: 8, RestP: 0.25, KeyP: 0.2, SettingP: 0.2, TextP: 0.3, Fractions: true, MultiVals: true, MaxDeg: 15, AllMarks: true, BassP: 0.4,
 					Syms: allSymbols(), Texts: sampleTexts, FirstChord: true}
-				cases = append(cases, Case{"cmd": "cmt", "doc": randomDoc(rng, o)})
+				fl := Flags{}
+				if i%2 == 1 { // flags given to write conv override the first instance, whether or not it sets the field itself
+					fl = randomFlags(rng, 0.6)
+				}
+				cases = append(cases, Case{"cmd": "cmt", "doc": randomDoc(rng, o), "flags": fl})
 			}
+			// a piece whose instances YAML is larger than a mebibyte goes through the pipe whole
+			cases = append(cases, Case{"cmd": "bigpipe", "n": 24000})
 			return cases
 		},
 		Exec: func(c *Ctx, k Case) []Rec {
@@ -186,11 +194,30 @@ func init() {
 					outs = append(outs, s)
 				}
 				return []Rec{{"kind": "scalar", "sub": field, "field": field, "ok": ok, "ins": strsChars(vals), "outs": strsChars(outs)}}
+			case "bigpipe":
+				n := ci(k, "n")
+				var sb strings.Builder
+				for i := 0; i < n; i++ {
+					sb.WriteString("C[1] ")
+				}
+				r1 := c.crdEnv([]string{"text", "conv", "syllable"}, []byte(sb.String()), nil, 60*time.Second)
+				rec := Rec{"kind": "bigpipe", "n": n, "convOk": r1.Exit == 0 && len(r1.Stdout) > 0, "yamlBytes": len(r1.Stdout), "writeOk": false, "ons": 0, "eot": 0}
+				if rec["convOk"] == true {
+					r2 := c.crdEnv([]string{"write"}, r1.Stdout, nil, 120*time.Second)
+					f := smf.Parse(r2.Stdout)
+					rec["writeOk"] = r2.Exit == 0 && f.Err == "" && len(r2.Stdout) > 0
+					rec["ons"] = len(noteOns(f))
+					if len(f.TrackLen) > 0 {
+						rec["eot"] = f.TrackLen[0]
+					}
+				}
+				return []Rec{rec}
 			case "cmt":
 				d := caseToDoc(k["doc"])
-				r0 := c.crd([]string{"write"}, d.YAML())
+				fl := caseToFlags(k["flags"])
+				r0 := c.crd(append([]string{"write"}, fl.Args()...), d.YAML())
 				f0 := smf.Parse(r0.Stdout)
-				r1 := c.crd([]string{"write", "conv", "-c", "cmt"}, d.YAML())
+				r1 := c.crd(append([]string{"write", "conv", "-c", "cmt"}, fl.Args()...), d.YAML())
 				rec := Rec{"kind": "cmt", "ok": r0.Exit == 0 && f0.Err == "" && len(r0.Stdout) > 0, "convOk": r1.Exit == 0 && len(r1.Stdout) > 0, "ok2": false,
 					"ev": eventsOf(f0), "ev2": [][]any{}}
 				if rec["convOk"] == true {
